@@ -306,8 +306,12 @@ fn cmd_obs(args: &[String], seed: u64) {
     let mut rng = Rng::new(seed ^ 0x0B5);
     let stdout = std::io::stdout();
     let mut out = stdout.lock();
+    // the leading template of program i is template (i + seed) mod TEMPLATE_COUNT: a quick run has fewer programs
+    // per shard than templates, and the shards' seeds differ by 7919 = -1 mod 22, so together they cover every
+    // template as a leading one whatever the seed is
+    let off = (seed % programs::TEMPLATE_COUNT as u64) as usize;
     for i in 0..nprog {
-        let prog = programs::gen_program(&mut rng, i);
+        let prog = programs::gen_program(&mut rng, i + off);
         let reference = run_session(&prog, &Schedule::None);
         for s in schedules_for(&mut rng, nsched, all) {
             let got = run_session(&prog, &s);
